@@ -881,3 +881,120 @@ func genC13(r *rng, n int, emit func(string)) {
 		}
 	}
 }
+
+// ---------------- C15: suite names ----------------
+func init() { streams["c15"] = genC15 }
+
+func grammarSuite(r *rng, wild bool) string {
+	hash := pick(r, []string{"SHA1", "SHA256", "SHA512"})
+	digits := fmt.Sprint(4 + r.intn(7))
+	if wild || r.chance(1, 6) {
+		digits = pick(r, []string{"0", "1", "3", "4", "10", "11", "12", "06", "+7", "-6", "", "6x", "9223372036854775807", "9223372036854775808", "007"})
+	}
+	var toks []string
+	if r.chance(1, 2) {
+		toks = append(toks, "C")
+	}
+	if r.chance(5, 6) {
+		toks = append(toks, "Q"+pick(r, []string{"N", "A", "H"})+pick(r, []string{"08", "10"}))
+	}
+	if r.chance(1, 3) {
+		toks = append(toks, "PSHA"+pick(r, []string{"1", "256", "512"}))
+	}
+	if r.chance(1, 3) {
+		toks = append(toks, pick(r, []string{"S", "S064", "S128", "S000", "S999"}))
+	}
+	if r.chance(1, 2) {
+		n := fmt.Sprint(1 + r.intn(59))
+		if r.chance(1, 8) {
+			n = pick(r, []string{"0", "-1", "+5", "01", "", "x", "5124095576030431", "5124095576030432", "153722867280912931", "9223372036854775807", "9223372036854775808", "2562047788015216"})
+		}
+		toks = append(toks, "T"+n+pick(r, []string{"S", "M", "H"}))
+	}
+	return "OCRA-1:HOTP-" + hash + "-" + digits + ":" + strings.Join(toks, "-")
+}
+
+func genC15(r *rng, n int, emit func(string)) {
+	emit("listsuites")
+	names := otp.ListSuites()
+	sortStrings(names)
+	for _, nm := range names {
+		emit("nraw " + hxs(nm))
+		emit("praw " + hxs(nm))
+		emit("known " + hxs(nm))
+		emit("fromraws " + hxs(nm))
+	}
+	// exhaustive slice of the grammar: hash x digits 0..11 x [C-] Q<kind><len> [-P] [-S] [-T]
+	for _, h := range []string{"SHA1", "SHA256", "SHA512"} {
+		for d := 0; d <= 11; d++ {
+			for _, c := range []string{"", "C-"} {
+				for _, q := range []string{"QN08", "QN10", "QA08", "QA10", "QH08", "QH10"} {
+					for _, p := range []string{"", "-PSHA1", "-PSHA256", "-PSHA512"} {
+						for _, s := range []string{"", "-S", "-S064"} {
+							for _, t := range []string{"", "-T1M", "-T30S", "-T48H"} {
+								emit("nraw " + hxs(fmt.Sprintf("OCRA-1:HOTP-%s-%d:%s%s%s%s%s", h, d, c, q, p, s, t)))
+							}
+						}
+					}
+				}
+			}
+		}
+	}
+	malformed := []string{"", ":", "::", ":::", "OCRA-1", "OCRA-1:HOTP-SHA1-6", "OCRA-1:HOTP-SHA1-6:", "OCRA-1:HOTP-SHA1-6:QN08:junk",
+		"OCRA-10:HOTP-SHA1-6:QN08", "OCRA-2:HOTP-SHA1-6:QN08", "ocra-1:HOTP-SHA1-6:QN08", "OCRA-1 :HOTP-SHA1-6:QN08", "OCRA-1:HOTP-SHA1-6:QN08 ",
+		"OCRA-1:TOTP-SHA1-6:QN08", "OCRA-1:HOTP-MD5-6:QN08", "OCRA-1:HOTP-SHA384-6:QN08", "OCRA-1:HOTP-SHA1:QN08", "OCRA-1:HOTP-SHA1-6-7:QN08",
+		"OCRA-1:HOTP-SHA-1-6:QN08", "OCRA-1:hotp-sha1-6:qn08", "OCRA-1:HOTP-SHA1-6:QN8", "OCRA-1:HOTP-SHA1-6:QN088", "OCRA-1:HOTP-SHA1-6:QN12",
+		"OCRA-1:HOTP-SHA1-6:QX08", "OCRA-1:HOTP-SHA1-6:Q", "OCRA-1:HOTP-SHA1-6:X", "OCRA-1:HOTP-SHA1-6:C-", "OCRA-1:HOTP-SHA1-6:-C", "OCRA-1:HOTP-SHA1-6:C--QN08",
+		"OCRA-1:HOTP-SHA1-6:QN08-PSHA", "OCRA-1:HOTP-SHA1-6:QN08-PSHA2", "OCRA-1:HOTP-SHA1-6:QN08-P", "OCRA-1:HOTP-SHA1-6:QN08-T", "OCRA-1:HOTP-SHA1-6:QN08-TM",
+		"OCRA-1:HOTP-SHA1-6:QN08-T1", "OCRA-1:HOTP-SHA1-6:QN08-T1X", "OCRA-1:HOTP-SHA1-6:QN08-T1m", "OCRA-1:HOTP-SHA1-6:QN08-t1M", "OCRA-1:HOTP-SHA1-6:QN08-T0M",
+		"OCRA-1:HOTP-SHA1-6:QN08-T-1M", "OCRA-1:HOTP-SHA1-6:QN08-SHA1", "OCRA-1:HOTP-SHA1-6:QN08-QN10", "OCRA-1:HOTP-SHA1-6:QN10-QNx", "OCRA-1:HOTP-SHA1-6:C-C",
+		"OCRA-1:HOTP-SHA1-6:T1M-QN08-C", "OCRA-1:HOTP-ſHA1-6:QN08", "OCRA-1:HOTP-SHA1-6:QıN08", "OCRA-1:HOTP-SHA1-6:ſ064-QN08", "OCRA-1:HOTP-SHA1-6:QN08-PſHA1",
+		"OCRA-1:HOTP-SHA1-6:QN08\x00", "OCRA-1:HOTP-SHA1-6:QN\xff\xfe", "OCRA-1:HOTP-SHA1-6:QNé08", "OCRA-1:HOT", "OCRA-1:HOTP-:QN08", "OCRA-1:HOTP-SHA:QN08", "OCRA-1:HOTP-SHA-:QN08",
+		"OCRA-1:HOTP-SHA1-:QN08", "OCRA-1:HOTP-SHA1-6 :QN08", "OCRA-1:HOTP-SHA1- 6:QN08"}
+	for _, m := range malformed {
+		emit("nraw " + hxs(m))
+		emit("praw " + hxs(m))
+		emit("known " + hxs(m))
+		emit("fromraws " + hxs(m))
+	}
+	for i := 0; i < n; i++ {
+		switch r.intn(10) {
+		case 0, 1, 2, 3:
+			s := grammarSuite(r, false)
+			emit(pick(r, []string{"nraw ", "praw "}) + hxs(s))
+		case 4:
+			emit("nraw " + hxs(grammarSuite(r, true)))
+		case 5: // one-character edits / case changes of a registered or grammar name
+			s := grammarSuite(r, false)
+			if r.chance(1, 2) {
+				s = pick(r, names)
+			}
+			b := []byte(s)
+			if len(b) > 0 {
+				k := r.intn(len(b))
+				switch r.intn(5) {
+				case 0:
+					b[k] = byte(r.next())
+				case 1:
+					b = append(b[:k], b[k+1:]...)
+				case 2:
+					b = append(b[:k], append([]byte{pick(r, []byte(":-CQNTSP0189"))}, b[k:]...)...)
+				case 3:
+					if b[k] >= 'A' && b[k] <= 'Z' {
+						b[k] += 32
+					}
+				case 4:
+					b = []byte(strings.ToLower(string(b)))
+				}
+			}
+			emit(pick(r, []string{"nraw ", "praw ", "known "}) + hx(b))
+		case 6:
+			emit("nraw " + hx(r.bytes(r.intn(30))))
+		case 7, 8:
+			emit("nsuite " + fmtSuite(genSuite(r, r.chance(2, 3))))
+		case 9:
+			s := pick(r, names)
+			emit(pick(r, []string{"known ", "fromraws "}) + hxs(s[:r.intn(len(s)+1)]))
+		}
+	}
+}
